@@ -216,6 +216,58 @@ pub fn supervise(prop: &Property, tier: Tier) -> i32 {
                         }
                     }
                 }
+                if !found && std::env::var("EBV_FORCE_CRUMBS").is_err() {
+                    // The dying sub-check does not write breadcrumbs: run the worker once more (same seeds, so the
+                    // same cases) with breadcrumbs forced for every sub-check, then look again.
+                    let _ = std::fs::remove_dir_all(&crumbs);
+                    let _ = std::fs::create_dir_all(&crumbs);
+                    let mut again = Command::new(&bin);
+                    again
+                        .arg("worker")
+                        .arg(prop.id)
+                        .arg(tier.name())
+                        .arg(&out)
+                        .arg(&crumbs)
+                        .arg(&hb)
+                        .env("VERIF_SEED", (seed as i64).to_string())
+                        .env("EBV_FORCE_CRUMBS", "1")
+                        .stdin(Stdio::null())
+                        .stderr(Stdio::null());
+                    if profile == "release" && tier == Tier::Quick {
+                        again.arg("--only-both");
+                    }
+                    set_rlimit(&mut again, RLIMIT_AS_BYTES);
+                    if let Ok(child) = again.spawn() {
+                        let _ = wait_with_watchdog(child, &hb, WATCHDOG_SECS);
+                    }
+                    if let Ok(rd) = std::fs::read_dir(&crumbs) {
+                        let mut files: Vec<_> = rd.flatten().map(|e| e.path()).collect();
+                        files.sort();
+                        for f in files {
+                            let mut c = Command::new(&bin);
+                            c.arg("replay").arg(&f).arg("--quiet").stdin(Stdio::null()).stdout(Stdio::null()).stderr(Stdio::null());
+                            set_rlimit(&mut c, RLIMIT_AS_BYTES);
+                            let died = matches!(c.status(), Ok(s) if s.signal().is_some() || s.code() == Some(1));
+                            if died {
+                                if let Some(v) = std::fs::read_to_string(&f).ok().and_then(|s| serde_json::from_str::<serde_json::Value>(&s).ok()) {
+                                    failures.push(Failure {
+                                        property: prop.id.to_string(),
+                                        subcheck: v["subcheck"].as_str().unwrap_or("?").to_string(),
+                                        profile: profile.to_string(),
+                                        case: v["case"].clone(),
+                                        violation: Violation::new(
+                                            format!("abort:signal{sig}"),
+                                            format!("worker process died from signal {sig} while executing this case (unshrunk)"),
+                                        ),
+                                        shrunk: false,
+                                    });
+                                    found = true;
+                                    break;
+                                }
+                            }
+                        }
+                    }
+                }
                 if !found {
                     failures.push(Failure {
                         property: prop.id.to_string(),
@@ -382,6 +434,7 @@ pub fn worker(prop: &Property, tier: Tier, out: &Path, crumbs: &Path, hb: &Path,
         seed: seed_from_env(),
         crumb_dir: Some(crumbs.to_path_buf()),
         strict: false,
+        force_crumbs: std::env::var("EBV_FORCE_CRUMBS").is_ok(),
     };
     let report = super::run_property_in_process(prop, &cfg, only_both);
     match std::fs::write(out, serde_json::to_string(&report).unwrap()) {
